@@ -49,7 +49,7 @@ import (
 //     execute-query, load) or ran a snapshot restore, as reported by hook points.
 
 type c17Op struct {
-	K     string   `json:"k"` // write read mixed lag heal restart run
+	K     string   `json:"k"` // write read mixed stall lag heal restart run
 	N     int      `json:"n,omitempty"`
 	Ep    string   `json:"ep,omitempty"` // get post text request
 	Level string   `json:"lvl,omitempty"`
@@ -208,6 +208,9 @@ func c17Gen(r *core.Rand, tier string) any {
 	}
 	sc.MultiRO = r.Bool(0.2)
 	sc.LiftAttach = r.Bool(0.2)
+	if r.Bool(0.6) {
+		sc.Knobs.MaxReadOnlyConns = 1 + r.Intn(2) // capped read-only pool (-db-max-ro-conns)
+	}
 	levels := []string{"none", "weak", "linearizable", "strong", "auto", ""}
 	n := r.Range(28, 40)
 	lag, down := 0, 0
@@ -259,6 +262,15 @@ func c17Gen(r *core.Rand, tier string) any {
 			}
 		default:
 			sc.Ops = append(sc.Ops, c17Op{K: "run", Ms: r.Range(100, 4000)})
+		}
+		if sc.Knobs.MaxReadOnlyConns > 0 && lag == 0 && r.Bool(0.12) {
+			// every read-only connection of the node is held by a stalled read while a
+			// write in disguise arrives on the query endpoint
+			op := c17Op{K: "stall", N: r.Intn(4), Ep: []string{"post", "get", "text"}[r.Intn(3)], Level: []string{"none", "none", "weak", ""}[r.Intn(4)], Tx: r.Bool(0.2)}
+			for len(op.Texts) == 0 || c17HasMultiStatement(op.Texts) {
+				op.Texts = c17Adversarial(r, false, false, false)
+			}
+			sc.Ops = append(sc.Ops, op)
 		}
 	}
 	return sc
@@ -830,6 +842,88 @@ func c17RunFn(c *core.Ctx, raw json.RawMessage) {
 					return
 				}
 			}
+		case "stall":
+			if sc.Knobs.MaxReadOnlyConns == 0 || k.iso != 0 {
+				continue
+			}
+			if op.Level != "none" {
+				if l := s.Leader(); l != nil {
+					tgt = l // weak/default reads are served by the leader
+				}
+			}
+			if !k.settle(60 * time.Second) { // nothing (restore, catch-up) may be pending on the node while reads are stalled
+				if !c.Failed() {
+					c.Discard("not-settled-before-stall: " + s.StateDigest())
+				}
+				return
+			}
+			ctx, cancel := context.WithCancel(context.Background())
+			var held []*sim.Task
+			for i := 0; i < sc.Knobs.MaxReadOnlyConns; i++ {
+				held = append(held, s.Go(fmt.Sprintf("stalled-read %d n%d", i, tgt.Idx), func() {
+					tgt.Store.Query(ctx, &proto.QueryRequest{Level: proto.ConsistencyLevel_NONE, Request: &proto.Request{
+						Statements: []*proto.Statement{{Sql: "SELECT 1", ForceStall: true}}}})
+				}))
+			}
+			for i := 0; i < 4; i++ {
+				if !k.step() {
+					cancel()
+					return
+				}
+			}
+			c.Fault("ro-pool-exhausted")
+			c.Log.Add("%d read-only pool of n%d exhausted by %d stalled reads", s.StepN, tgt.Idx, len(held))
+			t := s.Go(fmt.Sprintf("read-while-exhausted %d %s %s n%d", oi, op.Ep, op.Level, tgt.Idx), func() {
+				target := c17Target(op.Ep, op.Level, op.Tx)
+				switch op.Ep {
+				case "get":
+					w := tgt.HTTPDo("GET", target+"&q="+url.QueryEscape(texts[0]), "", nil, "", "")
+					code, body = w.Code, w.Body.String()
+				case "text":
+					w := tgt.HTTPDo("POST", target, "text/plain", []byte(strings.Join(texts, "; ")), "", "")
+					code, body = w.Code, w.Body.String()
+				default:
+					bb, _ := json.Marshal(texts)
+					w := tgt.HTTPDo("POST", target, "application/json", bb, "", "")
+					code, body = w.Code, w.Body.String()
+				}
+			})
+			deadline := time.Now().Add(2 * time.Second)
+			for !t.Finished && !s.Capped && time.Now().Before(deadline) {
+				if !k.step() {
+					cancel()
+					return
+				}
+			}
+			if t.Finished {
+				c.Probe("query_answered_while_ro_pool_exhausted")
+			} else {
+				c.Probe("query_queued_while_ro_pool_exhausted")
+			}
+			cancel()
+			waitUntil := time.Now().Add(40 * time.Second)
+			pending := func() bool {
+				if !t.Finished {
+					return true
+				}
+				for _, h := range held {
+					if !h.Finished {
+						return true
+					}
+				}
+				return false
+			}
+			for pending() && !s.Capped && time.Now().Before(waitUntil) {
+				if !k.step() {
+					return
+				}
+			}
+			if pending() {
+				c.Discard("stalled reads did not return after cancel")
+				return
+			}
+			c.Probe("adversarial_reads")
+			c.Probe("adversarial_reads_with_ro_pool_exhausted")
 		case "mixed":
 			bb, _ := json.Marshal(texts)
 			if !k.do(fmt.Sprintf("mixed %d %s n%d x%d", oi, op.Level, tgt.Idx, len(texts)), 40*time.Second, func() {
